@@ -767,8 +767,9 @@ def real_method_checks():
 # driver
 # ----------------------------------------------------------------------------------------
 def _shard(n, base):
-    """few big shards when there are many cases (coqc start-up dominates otherwise)"""
-    return max(base, min(1200, -(-n // 32)))
+    """fewer, bigger shards when there are many cases (coqc start-up dominates otherwise); capped
+    because a shard of 400 graph cases already needs ~0.6 GB in coqc"""
+    return max(base, min(400, -(-n // 48)))
 
 
 def _safe(ctx, group, desc, fn, *args):
@@ -1001,6 +1002,16 @@ def replay(ctx, payload):
         case, facts = run_call(desc)
         res = ctx.coq_cases('replay', REQ, CALL_FN, [case], 2, case_ty='call_obs', preamble=PRE)
         _flag(ctx, 'replay', desc, res[0], ['wrapped call differs from the model', 'wrapped call violates the call spec'], 1)
+    elif group == 'dumb':
+        case, facts = dumb_pipeline(desc)
+        res = ctx.coq_cases('replay', REQ, DUMB_FN, [case], 2, case_ty=DUMB_TY, preamble=PRE)
+        _flag(ctx, 'replay', desc, res[0], ['dumb adapter differs from the model', 'dumb adapter does not preserve the graph'], 1)
+    elif group == 'direct' and 'graph' in desc:
+        two, facts = direct_pipeline(desc['graph'], desc['domain_subclass'])
+        res = ctx.coq_cases('replay', REQ, DIRECT_FN, two, 2, case_ty=DIRECT_TY, preamble=PRE)
+        for rr in res:
+            _flag(ctx, 'replay', desc, rr, ['DirectAdapter differs from the model',
+                                            'DirectAdapter loses content / classes or shares objects'], 1)
     elif group == 'registry' and 'ops' in desc:
         case, facts = run_registry(desc)
         res = ctx.coq_cases('replay', REQ, REG_FN, [case], 2, case_ty=REG_TY, preamble=PRE)
